@@ -187,6 +187,7 @@ impl Driver {
 			}
 			Op::SetHook(hid) => set_hook(&job, &world, *hid),
 			Op::SetAsyncHook(delay) => set_async_hook(&job, &world, *delay),
+			Op::UnsetHook => job.unset_spawn_hook(),
 			Op::SetErrH(eid) => set_errh(&job, &world, *eid),
 			Op::UnsetErrH => job.unset_error_handler(),
 		};
